@@ -9,6 +9,7 @@
              value is enclosed by more than D-1 containers, else "depth" at the first such value
    "hostile" (C15) K unclosed openers: "depth" at the first opener beyond the limit, and the peak
              number of allocations is the same however long the input is
+   "depthfd" (C15) the same through json_object_from_fd_ex(fd, D), which also refuses D < 1
    "newex"   (C15) a depth limit < 1 is refused
    "inject"  (C16) one listed extension injected into a valid document: strict mode fails,
              default mode succeeds with the value of the RFC-valid equivalent text, strict +
@@ -34,6 +35,15 @@ DepthOk(r) ==
     IF ~d.ok THEN PrintT(<<"GEN", l>>)
     ELSE IF G!MaxDepthOf(d) <= D - 1 THEN r.got.st = "success" /\ r.got.val = d.v
     ELSE r.got.st = "depth" /\ r.got.end = G!FirstTooDeep(d, D)
+
+\* the same limit configured through json_object_from_fd_ex: D < 1 is refused (no value), otherwise a valid document
+\* is accepted exactly when no value is enclosed by more than D-1 containers, and refused as too deep otherwise
+DepthFdOk(r) ==
+    LET d == G!Denote(r.text) IN
+    IF r.D < 1 THEN ~r.has
+    ELSE IF ~d.ok THEN PrintT(<<"GEN", l>>)
+    ELSE IF G!MaxDepthOf(d) <= r.D - 1 THEN r.has /\ r.val = d.v
+    ELSE ~r.has /\ r.too_deep
 
 HostileOk(r) ==
     LET unit == IF r.pat = 0 THEN 1 ELSE 5 IN
@@ -66,7 +76,7 @@ InjectOk(r) ==
 
 StepOfImpl(s, r) ==
     [ok |-> CASE r.e = "parse" -> ParseOk(r)
-              [] r.e = "depth" -> DepthOk(r)
+              [] r.e = "depth" -> DepthOk(r) [] r.e = "depthfd" -> DepthFdOk(r)
               [] r.e = "hostile" -> HostileOk(r)
               [] r.e = "newex" -> r.refused
               [] r.e = "inject" -> InjectOk(r)
